@@ -348,6 +348,10 @@ def fcall(name, args, ty=None):
         if name == 'floor':
             return const(t, v[0] if (v[0] != v[0] or abs(v[0]) == math.inf) else float(math.floor(v[0])))
         if name == 'round': return const(t, rust_round(v[0]))
+        if name == 'trunc':
+            return const(t, v[0] if (v[0] != v[0] or abs(v[0]) == math.inf) else math.copysign(float(math.trunc(v[0])), v[0]))
+        if name == 'ceil':
+            return const(t, v[0] if (v[0] != v[0] or abs(v[0]) == math.inf) else math.copysign(float(math.ceil(v[0])), v[0]) if math.ceil(v[0]) == 0 else float(math.ceil(v[0])))
         if name == 'sqrt':
             if v[0] < 0: return const(t, math.nan)
             if v[0] != v[0] or v[0] == math.inf: return const(t, v[0])
